@@ -6,6 +6,7 @@ import (
 	"os"
 	"strconv"
 	"testing"
+	"time"
 
 	"pgregory.net/rapid"
 
@@ -167,10 +168,12 @@ func TestTamperExhaustive(t *testing.T) {
 			var lens []int
 			var pfx int
 			var rec *clientSide
+			var recAt time.Time
 			if dir == dirC2S {
 				if rec, err = dialClient(w, &base, 0); err != nil {
 					t.Fatal(err)
 				}
+				recAt = time.Now()
 				for _, f := range rec.frames {
 					lens = append(lens, len(f))
 				}
@@ -202,6 +205,21 @@ func TestTamperExhaustive(t *testing.T) {
 						for bi, bit := range bits {
 							if kind == opCut && bi > 0 {
 								break
+							}
+							if rec != nil && time.Since(recAt) > 8*time.Second {
+								// The recorded request carries a timestamp the server accepts for 30 s only: on a slow or loaded
+								// machine a class can take longer than that. Record a fresh session (new random padding); the
+								// enumeration continues at the same offset, bounded by the new frame length.
+								if rec, err = dialClient(w, &base, 0); err != nil {
+									t.Fatal(err)
+								}
+								recAt = time.Now()
+								if frame < len(rec.frames) {
+									flen = len(rec.frames[frame])
+								}
+								if off >= flen {
+									break
+								}
 							}
 							p := base
 							p.recorded = rec
